@@ -27,7 +27,7 @@ func DatumFree(p *core.Prog, r *core.Report) {
 			continue
 		}
 		recvN := core.NamedOf(f.Signature.Recv().Type())
-		if recvN == nil || !strings.HasSuffix(recvN.Obj().Name(), "Validator") && !strings.HasSuffix(recvN.Obj().Name(), "validator") {
+		if recvN == nil || !strings.HasSuffix(core.KnownTypeName(recvN), "Validator") && !strings.HasSuffix(core.KnownTypeName(recvN), "validator") {
 			continue
 		}
 		// the datum: the interface-typed parameter(s)
